@@ -219,6 +219,12 @@ def r3_wildcard_site(repo):
     return obs
 
 
+def g_dom(f, a, b):
+    """statement a lies on the way to node b within one loop iteration: a precedes b in the same or an enclosing block"""
+    sa = _stmt(a)
+    return sa.lineno <= _stmt(b).lineno
+
+
 def r4_pool(repo):
     obs = []
     callers = []
@@ -261,30 +267,36 @@ def r4_pool(repo):
                       "for_type_constructor=%s) explicitly (generic functions get no projections and `Nothing` for a "
                       "parameter bounded by a covariantly projected class variable)" % (f.name, want_vc, want_ftc)))
     f = repo.fn(TU + "._get_available_types")
-    loops = [n for n in f.node.body if isinstance(n, ast.For)]
+    # judged on the path condition of the one statement that lets an element into the result (whatever the layout of
+    # the skipping tests: `continue` guards, nested ifs, else branches)
+    loops = [n for n in iter_own_nodes(f.node) if isinstance(n, ast.For) and
+             not any(isinstance(a, (ast.For, ast.While)) for a in ancestors(n))]
     ok1 = ok2 = ok3 = ok4 = False
     if len(loops) == 1:
         lp = loops[0]
         v = src(lp.target)
-        conts = [n for n in iter_own_nodes(lp) if isinstance(n, ast.Continue)]
-        # positive guards only: negated guards come from earlier `if ...: continue` siblings
-        cg = [[(src(t), p) for t, p in flat_guards(n, stop=lp) if p] for n in conts]
-        ok1 = any(g == [("isinstance(%s, tp.TypeConstructor)" % v, True)] for g in cg)
-        ok2 = any(("isinstance(%s, ast.ClassDeclaration)" % v, True) in g and
-                  len(g) == 1 for g in cg) and any(
-            ("isinstance(%s, ast.ClassDeclaration)" % v, True) in g_ and
-            ("%s.class_type == ast.ClassDeclaration.REGULAR" % v, False) in g_
-            for g_ in [[(src(t), p) for t, p in flat_guards(n, stop=lp)] for n in conts])
-        box = [n for n in iter_own_nodes(lp) if isinstance(n, ast.Assign) and src(n.targets[0]) == v and
-               src(n.value) == "%s.box_type()" % v]
-        bg = [(src(t), p) for t, p in flat_guards(box[0], stop=lp)] if box else []
-        ok3 = len(box) == 1 and (f.params[3], False) in bg and ("hasattr(%s, 'box_type')" % v, True) in bg and \
-            len([x for x in bg if x[1]]) == 1
         apps = [c for c in calls_in(lp) if call_name(c) == "append"]
-        ok4 = len(apps) == 1 and src(apps[0].args[0]) == v and _stmt(apps[0]) is lp.body[-1] and \
-            src(lp.iter) == f.params[1]
-        ret = f.node.body[-1]
-        ok4 = ok4 and isinstance(ret, ast.Return) and src(ret.value) == src(apps[0].func.value)
+        if len(apps) == 1:
+            raw = [(" ".join(src(t).split()), p) for t, p in flat_guards(apps[0], stop=lp)]
+            ok1 = ("isinstance(%s, tp.TypeConstructor)" % v, False) in raw
+            nonreg = "isinstance(%s, ast.ClassDeclaration) and %s.class_type != ast.ClassDeclaration.REGULAR" % (v, v)
+            ok2 = (nonreg, False) in raw or (
+                ("isinstance(%s, ast.ClassDeclaration)" % v, False) in raw) or (
+                ("%s.class_type == ast.ClassDeclaration.REGULAR" % v, True) in raw)
+            # an unflattened negative compound that contains both conjuncts also counts
+            ok2 = ok2 or any(not p and "isinstance(%s, ast.ClassDeclaration)" % v in t and "REGULAR" in t and " or " not in t
+                             for t, p in raw)
+            box = [n for n in iter_own_nodes(lp) if isinstance(n, ast.Assign) and src(n.targets[0]) == v and
+                   src(n.value) == "%s.box_type()" % v]
+            bg = [(src(t), p) for t, p in flat_guards(box[0], stop=lp)] if box else []
+            own = [x for x in bg if x not in raw]        # what the boxing depends on beyond reaching the append
+            ok3 = len(box) == 1 and (f.params[3], False) in bg and ("hasattr(%s, 'box_type')" % v, True) in bg and \
+                sorted(own) == sorted([(f.params[3], False), ("hasattr(%s, 'box_type')" % v, True)]) and \
+                g_dom(f, box[0], apps[0])
+            rets = [n for n in iter_own_nodes(f.node) if isinstance(n, ast.Return) and n.value is not None and
+                    src(n.value) == src(apps[0].func.value)]
+            ok4 = src(apps[0].args[0]) == v and src(lp.iter) == f.params[1] and len(rets) == 1 and \
+                cfg_of(f.node).dominates(cfg_of(f.node).node(lp), cfg_of(f.node).node(rets[0]))
     early = [n for n in f.node.body if isinstance(n, ast.If) and src(n.test) == "not %s" % f.params[2]]
     obs.append(Ob("C08-R4", "_get_available_types:drops-type-constructors", _w(f), ok1,
                   "bare type constructors must be skipped unconditionally"))
